@@ -174,7 +174,7 @@ def foreignAddFor (s : Core) (key node app : String) (res : Res) : Core :=
       { n with allocs := n.allocs.map (fun x => if x.key == key && x.foreign then { x with app := app } else x) } else n) }
 
 def handleForeign (s : Core) (a : Alloc) : Result :=
-  -- handleForeignAllocation: not allocated, node unknown, negative quantity (fix 258acc8), then add or update
+  -- handleForeignAllocation: not allocated, node unknown, negative quantity (fix db32327), then add or update
   if a.node == "" then rej s .foreignNotAllocated (.rejectedAlloc a.key a.app .foreignNotAllocated)
   else match s.findNode a.node with
     | none => rej s .foreignNode (.rejectedAlloc a.key a.app .foreignNode)
@@ -239,7 +239,7 @@ def rmPlacedExisting (s : Core) (a : Alloc) (app : CApp) (ex : CItem) : Core :=
 def handleAlloc (env : Env) (s : Core) (a : Alloc) : Result :=
   -- processAllocations: partition lookup
   if !(env.isPart a.part) then rej s .partition (.rejectedAlloc a.key a.app .partition)
-  -- NewAllocationFromSI returns nil: processAllocations answers with a RejectedAllocation (fix 74ad7c3)
+  -- NewAllocationFromSI returns nil: processAllocations answers with a RejectedAllocation (fix 8774879)
   else if a.ph && a.tg == "" then rej s .placeholderNoTaskGroup (.rejectedAlloc a.key a.app .placeholderNoTaskGroup)
   else if isForeign a then handleForeign s a
   else match s.findApp a.app with
@@ -377,7 +377,7 @@ def handleAppRemove (env : Env) (s : Core) (r : AppRemove) : Result :=
 
 def handleNode (env : Env) (s : Core) (n : NodeInfo) : Result :=
   if n.action == 1 || n.action == 6 then
-    -- addNode: partition lookup, then PartitionContext.AddNode: empty id (fix 2c8b858), duplicate; no check of the capacity
+    -- addNode: partition lookup, then PartitionContext.AddNode: empty id (fix e19e4b6), duplicate; no check of the capacity
     if !(nodeInPart env n) then rej s .nodePartition (.rejectedNode n.id .nodePartition)
     else if n.id == "" then rej s .emptyId (.rejectedNode n.id .emptyId)
     else if (s.findNode n.id).isSome then rej s .nodeDuplicate (.rejectedNode n.id .nodeDuplicate)
@@ -532,9 +532,9 @@ def unboundAsk (s : Core) (a : Alloc) : Bool :=
 def gapOf (env : Env) (s : Core) : Item → Option Gap
   | .alloc a =>
     if !(env.isPart a.part) then none
-    else if a.ph && a.tg == "" then none                              -- rejected since fix 74ad7c3
+    else if a.ph && a.tg == "" then none                              -- rejected since fix 8774879
     else if a.key == "" then some .allocEmptyKey
-    else if isForeign a && hasNegativeValue a.res then none           -- rejected since fix 258acc8
+    else if isForeign a && hasNegativeValue a.res then none           -- rejected since fix db32327
     else if keyInUseElsewhere s a then some .duplicateKey
     else if foreignMoved s a then some .foreignMoved
     else if unboundAsk s a then some .resizeUnbound
@@ -543,7 +543,7 @@ def gapOf (env : Env) (s : Core) : Item → Option Gap
   | .node n =>
     if !(nodeInPart env n) then none
     else if n.action == 1 || n.action == 6 then
-      (if n.id == "" then none                                        -- rejected since fix 2c8b858
+      (if n.id == "" then none                                        -- rejected since fix e19e4b6
        else if hasNegativeValue n.res then some .nodeNegative else none)
     else if n.action == 2 && hasNegativeValue n.res then some .nodeNegative
     else none
